@@ -1,0 +1,316 @@
+//go:build verif
+
+package term
+
+// Verification hooks for the embedded terminal emulator (properties C05, C06,
+// reused by C12/C13/C18). Add-only: nothing here changes behaviour; the file is
+// compiled only with `-tags verif`.
+
+import (
+	"os"
+	"os/exec"
+	"reflect"
+	"strings"
+	"sync"
+	"syscall"
+	"time"
+
+	"git.sr.ht/~rockorager/vaxis"
+	"git.sr.ht/~rockorager/vaxis/ansi"
+)
+
+type verifAux struct {
+	rfd     int // raw non-blocking read end of the reply pipe
+	replies []byte
+}
+
+var (
+	verifMu    sync.Mutex
+	verifAuxOf = map[*Model]*verifAux{}
+)
+
+// VerifNew returns a Model of the given size without a PTY or child process.
+// Its pty is the write end of a pipe whose read end is drained by
+// VerifTakeReplies/VerifFeed (no goroutine). The parser is an idle parser on
+// an empty reader: update() only uses it for Finish().
+func VerifNew(w, h int) *Model {
+	vt := New()
+	var p [2]int
+	if err := syscall.Pipe2(p[:], syscall.O_NONBLOCK|syscall.O_CLOEXEC); err != nil {
+		panic(err)
+	}
+	vt.pty = os.NewFile(uintptr(p[1]), "verif-pty")
+	vt.parser = ansi.NewParser(strings.NewReader(""))
+	verifMu.Lock()
+	verifAuxOf[vt] = &verifAux{rfd: p[0]}
+	verifMu.Unlock()
+	vt.resize(w, h)
+	return vt
+}
+
+// VerifClose releases the pipe of a Model made by VerifNew.
+func (vt *Model) VerifClose() {
+	verifMu.Lock()
+	aux := verifAuxOf[vt]
+	delete(verifAuxOf, vt)
+	verifMu.Unlock()
+	if aux != nil {
+		syscall.Close(aux.rfd)
+	}
+	if vt.pty != nil {
+		vt.pty.Close()
+	}
+	vt.timer.Stop()
+}
+
+func (vt *Model) verifDrainReplies() {
+	verifMu.Lock()
+	aux := verifAuxOf[vt]
+	verifMu.Unlock()
+	if aux == nil {
+		return
+	}
+	buf := make([]byte, 4096)
+	for {
+		n, err := syscall.Read(aux.rfd, buf)
+		if n > 0 {
+			aux.replies = append(aux.replies, buf[:n]...)
+		}
+		if err != nil || n <= 0 {
+			return
+		}
+	}
+}
+
+// VerifTakeReplies returns (and forgets) everything the emulator wrote to its
+// pty since the last call.
+func (vt *Model) VerifTakeReplies() string {
+	vt.verifDrainReplies()
+	verifMu.Lock()
+	aux := verifAuxOf[vt]
+	verifMu.Unlock()
+	if aux == nil {
+		return ""
+	}
+	s := string(aux.replies)
+	aux.replies = aux.replies[:0]
+	return s
+}
+
+func (vt *Model) verifDrainEvents() []vaxis.Event {
+	var evs []vaxis.Event
+	for {
+		select {
+		case ev := <-vt.events:
+			evs = append(evs, ev)
+		default:
+			return evs
+		}
+	}
+}
+
+// VerifFeed applies one parsed sequence through update(), the function the PTY
+// goroutine calls for every parser item. The event channel is emptied before
+// and after, so a sequence raising at most cap(events) events cannot block.
+// It returns the events raised by this sequence. Panics propagate to the
+// caller (the PTY goroutine would recover and close the terminal).
+func (vt *Model) VerifFeed(seq ansi.Sequence) []vaxis.Event {
+	vt.verifDrainEvents()
+	defer vt.verifDrainReplies()
+	vt.update(seq)
+	return vt.verifDrainEvents()
+}
+
+// VerifEventCap is the capacity of the emulator's own event channel.
+func (vt *Model) VerifEventCap() int { return cap(vt.events) }
+
+// VerifPendingEvents is the number of events waiting in the channel.
+func (vt *Model) VerifPendingEvents() int { return len(vt.events) }
+
+// VerifUpdateNoDrain calls update() without touching the event channel (the
+// caller decides when events are consumed). It may block exactly as the PTY
+// goroutine would.
+func (vt *Model) VerifUpdateNoDrain(seq ansi.Sequence) {
+	defer vt.verifDrainReplies()
+	vt.update(seq)
+}
+
+// VerifResize is Model.resize (Resize without the ioctl on the pty).
+func (vt *Model) VerifResize(w, h int) {
+	vt.mu.Lock()
+	defer vt.mu.Unlock()
+	vt.resize(w, h)
+}
+
+// VerifStartCmd is StartWithSize: the real PTY goroutine with its select
+// loop, on a real child process. Events go to fn.
+func (vt *Model) VerifStartCmd(cmd *exec.Cmd, w, h int, fn func(vaxis.Event)) error {
+	vt.Attach(fn)
+	return vt.StartWithSize(cmd, w, h)
+}
+
+// VerifRunLoop runs the PTY goroutine's real select loop (StartWithSize) on a
+// child process that writes `out` to the terminal and exits. It returns the
+// events delivered to the handler and whether EventClosed arrived within the
+// timeout (false = the loop stalled).
+func VerifRunLoop(out string, w, h int, timeout time.Duration) (events []vaxis.Event, closed bool, err error) {
+	vt := New()
+	done := make(chan struct{})
+	var mu sync.Mutex
+	handler := func(ev vaxis.Event) {
+		mu.Lock()
+		defer mu.Unlock()
+		switch ev.(type) {
+		case vaxis.Redraw:
+			return
+		case EventClosed:
+			events = append(events, ev)
+			select {
+			case <-done:
+			default:
+				close(done)
+			}
+			return
+		}
+		events = append(events, ev)
+	}
+	f, err := os.CreateTemp("", "verif-term-*")
+	if err != nil {
+		return nil, false, err
+	}
+	defer os.Remove(f.Name())
+	f.WriteString(out)
+	f.Close()
+	cmd := exec.Command("cat", f.Name())
+	if err := vt.VerifStartCmd(cmd, w, h, handler); err != nil {
+		return nil, false, err
+	}
+	select {
+	case <-done:
+		closed = true
+	case <-time.After(timeout):
+	}
+	// Tear down without taking vt.mu (a stalled loop holds it forever).
+	if cmd.Process != nil {
+		cmd.Process.Kill()
+	}
+	vt.pty.Close()
+	mu.Lock()
+	defer mu.Unlock()
+	evs := append([]vaxis.Event(nil), events...)
+	return evs, closed, nil
+}
+
+// VerifCell mirrors one emulator cell.
+type VerifCell struct {
+	Grapheme string
+	Width    int
+	Style    vaxis.Style
+	Wrapped  bool
+}
+
+// VerifSaved mirrors a cursorState (DECSC slot).
+type VerifSaved struct {
+	Row, Col     int
+	Style        vaxis.Style
+	CursorStyle  int
+	Decawm       bool
+	Decom        bool
+	Selected     int
+	SavedSet     int
+	SingleShift  bool
+	Designations [4]int
+}
+
+// VerifState is a read-only copy of the emulator state.
+type VerifState struct {
+	Rows, Cols           int // len(activeScreen), len(activeScreen[0]) (0 if no rows)
+	PrimaryRows, AltRows int
+	CursorRow, CursorCol int
+	LastCol              bool
+	Top, Bottom          int
+	Left, Right          int
+	// Modes holds the fields of the unexported mode struct in declaration
+	// order, ModeNames their names.
+	ModeNames []string
+	Modes     []bool
+	// AltActive: activeScreen aliases altScreen (false: primaryScreen).
+	// ActiveKnown is false when the screens have no rows.
+	AltActive   bool
+	ActiveKnown bool
+	Primary     [][]VerifCell
+	Alt         [][]VerifCell
+	TabStops    []int
+	Pen         vaxis.Style
+	CursorStyle int
+	Charsets    VerifSaved // only the charset fields are meaningful
+	SavedPrim   VerifSaved
+	SavedAlt    VerifSaved
+	Pending     int // events waiting in the channel
+	Dirty       bool
+}
+
+func verifGrid(g [][]cell) [][]VerifCell {
+	out := make([][]VerifCell, len(g))
+	for i, r := range g {
+		out[i] = make([]VerifCell, len(r))
+		for j, c := range r {
+			out[i][j] = VerifCell{Grapheme: c.Grapheme, Width: c.Width, Style: c.Style, Wrapped: c.wrapped}
+		}
+	}
+	return out
+}
+
+func verifCharsets(cs charsets, s *VerifSaved) {
+	s.Selected = int(cs.selected)
+	s.SavedSet = int(cs.saved)
+	s.SingleShift = cs.singleShift
+	for i := 0; i < 4; i++ {
+		s.Designations[i] = int(cs.designations[charsetDesignator(i)])
+	}
+}
+
+func verifSaved(st cursorState) VerifSaved {
+	s := VerifSaved{
+		Row: int(st.cursor.row), Col: int(st.cursor.col),
+		Style: st.cursor.Style, CursorStyle: int(st.cursor.style),
+		Decawm: st.decawm, Decom: st.decom,
+	}
+	verifCharsets(st.charsets, &s)
+	return s
+}
+
+// VerifSnapshot copies the emulator state.
+func (vt *Model) VerifSnapshot() VerifState {
+	vt.mu.Lock()
+	defer vt.mu.Unlock()
+	s := VerifState{
+		Rows: vt.height(), Cols: vt.width(),
+		PrimaryRows: len(vt.primaryScreen), AltRows: len(vt.altScreen),
+		CursorRow: int(vt.cursor.row), CursorCol: int(vt.cursor.col),
+		LastCol: vt.lastCol,
+		Top:     int(vt.margin.top), Bottom: int(vt.margin.bottom),
+		Left: int(vt.margin.left), Right: int(vt.margin.right),
+		Primary: verifGrid(vt.primaryScreen), Alt: verifGrid(vt.altScreen),
+		Pen: vt.cursor.Style, CursorStyle: int(vt.cursor.style),
+		SavedPrim: verifSaved(vt.primaryState), SavedAlt: verifSaved(vt.altState),
+		Pending: len(vt.events), Dirty: vt.dirty,
+	}
+	mv := reflect.ValueOf(vt.mode)
+	for i := 0; i < mv.NumField(); i++ {
+		s.ModeNames = append(s.ModeNames, mv.Type().Field(i).Name)
+		s.Modes = append(s.Modes, mv.Field(i).Bool())
+	}
+	if len(vt.activeScreen) > 0 && len(vt.altScreen) > 0 {
+		s.ActiveKnown = true
+		s.AltActive = &vt.activeScreen[0] == &vt.altScreen[0]
+	}
+	for _, t := range vt.tabStop {
+		s.TabStops = append(s.TabStops, int(t))
+	}
+	verifCharsets(vt.charsets, &s.Charsets)
+	return s
+}
+
+// VerifFocused reports the focus flag used by Draw for the cursor.
+func (vt *Model) VerifFocused() bool { return atomicLoad(&vt.focused) }
